@@ -99,6 +99,43 @@ def run(chk: Check):
                     {"enum": name, "string": s, "observed": coqio.describe_py(r)},
                 )
 
+    # ------------------------------------------------------------ history independence of the converters
+    # every enumerated function's own converter object: first every wire text of EVERY enumeration
+    # (most are unknown to it), then its own members -- decoding must not depend on what was decoded before
+    from ynca import converters as C
+
+    for c, funcs in table:
+        for attr, f in funcs:
+            parts = f.converter._converters if type(f.converter) is C.MultiConverter else [f.converter]
+            for p in parts:
+                if type(p) is not C.EnumConverter:
+                    continue
+                cls = p.datatype
+                for w in all_wires:
+                    try:
+                        p.to_value(w)
+                    except Exception:  # noqa
+                        pass
+    for c, funcs in table:
+        for attr, f in funcs:
+            parts = f.converter._converters if type(f.converter) is C.MultiConverter else [f.converter]
+            for p in parts:
+                if type(p) is not C.EnumConverter:
+                    continue
+                cls = p.datatype
+                for mname, m in cls.__members__.items():
+                    try:
+                        r = ("ok", p.to_value(m.value))
+                    except Exception as e:  # noqa
+                        r = ("raise", type(e).__name__)
+                    chk.count_case(["conv-after-others", c.__name__, attr, mname], True)
+                    if r[0] != "ok" or r[1] is not m:
+                        chk.violation(
+                            f"converter:{cls.__name__}:history-dependent",
+                            f"{c.__name__}.{attr}: after other texts were decoded, {m.value!r} decodes to {coqio.describe_py(r)} instead of {cls.__name__}.{mname}",
+                            {"class": c.__name__, "attr": attr, "enum": cls.__name__, "string": m.value, "after": "every wire text of every enumeration through every enumerated function's converter"},
+                        )
+
     # ------------------------------------------------------------ implementation + monitor: recorded triples
     by_id = {}
     for c, funcs in table:
